@@ -176,7 +176,8 @@ Definition sl_solve_step_aux (e : Env) (pts : list (BP (F:=F))) (cl : ConLim) (s
   let a := k_speed k - rn * tpm in
   let v_max := half * (a + nsqrt (a * a + four * tpm * pwr_pos_max)) in
   let f_pos_max := nmin (cl_force_max cl) (pwr_pos_max / nmin speed_target v_max) in
-  let? _ := ensure (negb ((k_speed k <? mph_tenth) && (f_pos_max <=? rn))) 1302 in
+  (* /repo fix: ... or the train would be pushed backwards within this step (the speed after it would be negative) *)
+  let? _ := ensure (negb (((k_speed k <? mph_tenth) && (f_pos_max <=? rn)) || (k_speed k + tpm * (f_pos_max - rn) <? n0))) 1302 in
   (* fric_brake.set_cur_force_max_out(dt) *)
   let fmc := nmin (fb_force fb + fb_force_max fb / fb_ramp_up_time fb * dt) (fb_force_max fb) in
   let v_neg_trac_lim := cl_pwr_dyn_brake_max cl / cl_force_max cl in
